@@ -1,32 +1,22 @@
-# Per-property configuration of ./check (see DESIGN.md section 5).
+# Per-property configuration of ./check: one file per property under props.d/ (PROP = driver config, TEXT = MANIFEST texts).
+import os, glob, importlib.util
+
 TRUSTED_BASE = [
     "Coq 8.16.1 kernel; vm_compute (generated obligations and evaluation of the model on harness histories); native_compute not used",
     "axioms: none declared in the development; Print Assumptions output per theorem is recorded under coverage.axioms_by_theorem",
     "correspondence check: Go harness (/verif/harness) driving the real packages built from /repo with -tags 'test verif'; generators, canonicalisers and property oracles are trusted",
-    "translators: harness/suites/consts.go (constants + go/ast literal extraction)",
+    "translators: harness/suites/consts.go (constants + go/ast literal extraction), harness/suites/layouts.go (fixed-width codec layouts), harness/suites/skeletons.go (lock/IO skeletons)",
     "Go toolchain, OS",
 ]
 
-PROPS = {
-    "C20": {
-        "props_v": "Props/C20.v",
-        "extra_v": ["TimeslotRun.v"],
-        "gen_bins": ["prod"],
-        "gen_obligations": ["c20_genesis@ConstsProd", "c20_extraction_complete@ConstsProd", "c20_cadence_inequality@ConstsProd"],
-        "suites": [("prod", "timeslot")],
-        "assumptions": [
-            "rotation literals (3200/432/4032/2016) are read syntactically from the anchored function bodies; their behavioural effect is pinned by the C01/C03 suites",
-            "schedule theorem assumes the rotation thread wakes at least every P slots and a triggered rotation finishes within D slots (D is a parameter; the theorem covers every D up to the computed slack)",
-        ],
-    },
-}
+PROPS, TEXTS = {}, {}
+_d = os.path.join(os.path.dirname(os.path.abspath(__file__)), "props.d")
+for _f in sorted(glob.glob(os.path.join(_d, "C*.py"))):
+    _spec = importlib.util.spec_from_file_location("propsd_" + os.path.basename(_f)[:-3], _f)
+    _m = importlib.util.module_from_spec(_spec)
+    _spec.loader.exec_module(_m)
+    _id = os.path.basename(_f)[:-3]
+    PROPS[_id] = _m.PROP
+    TEXTS[_id] = _m.TEXT
 
-# Texts for MANIFEST.json (mkmanifest.py)
-TEXTS = {
-    "C20": {
-        "text": "Coq theorems over all int64 unix times / uint32 slots (round trip, monotonicity, refusal before genesis, exact int64-widened comparison for every 32-bit pair) and a schedule invariant proved by induction over arbitrary event lists; the genesis date and the cadence inequality are re-proved on constants regenerated from a production-tag build and from go/ast literal extraction on every run; the executable model is compared with glow.UnixToTimeslot/TimeslotToUnix/CurrentTimeslot of a production-tag binary on boundary-stride and random inputs.",
-        "note": "Trusted: Coq kernel + vm_compute, the constants translator, the harness. The rotation thread is modelled as a schedule automaton (wake-up period P, rotation duration D as parameters); wall-clock behaviour of time.Now is sandwiched, not proved.",
-        "technique": "Coq proof (lia, induction over schedules) + regenerated constants + differential correspondence (vm_compute)",
-    },
-}
 NOT_YET = {("C%02d" % i): "check not built yet in this round (planned in DESIGN.md section 5; not a claim that the technique cannot apply)" for i in range(1, 21)}
